@@ -13,6 +13,7 @@ package main
 //  which=2  checkInputBytes alone: case = (max cut #bytes)  obs = (ok cutoff #out)
 //  which=3  several jobs per worker.work call (shared accumBuf / readBuf): case = (w sched (filecase ...)),
 //           obs = one which-w observable per file; see c06ExecMulti and coq/Model/Worker.v (c06_multi)
+//  which=4,5 histories with maintenance ticks, truncation, rename / rotation (emit format of which 0 / 1): see maint.go
 //  a which-0/1 case may carry a 6th item `base`: the file starts with a hole of base bytes (sparse), all offsets shift
 
 import (
@@ -157,6 +158,9 @@ func c06Exec(which int, cs hx.Sx) hx.Sx {
 	it := hx.Items(cs)
 	if which == 3 {
 		return c06ExecMulti(cs)
+	}
+	if which == 4 || which == 5 {
+		return c06ExecHist(which, cs)
 	}
 	if which == 2 {
 		max := int(hx.Int(it[0]))
@@ -639,6 +643,9 @@ func c06Gen(c *hmain.Ctx) {
 		c.W.Count(fmt.Sprintf("sparse-offsets: resume offset >= 2^%d", bitLen(base)-1))
 		c.Do("sparse-offsets", r.Intn(2), cs, bytes.IndexByte(b, '\n') >= 0)
 	}
+
+	// 8. histories with the maintenance of the job (which = 4 | 5), see maint.go
+	c06GenHist(c, cfgs, bufs, randContent, randCfg)
 }
 
 func bitLen(x int64) int {
@@ -651,7 +658,7 @@ func bitLen(x int64) int {
 
 func main() {
 	hmain.Run(&hmain.Prop{ID: "C06",
-		Rule: "exhaustive: every content over {a,b,\\n} up to the tier's length x every split into two appends (one worker pass after each) x read buffer 1..4 x (max_event_size, cut_off) in {(0,-),(2,skip),(2,cut),(3,skip),(3,cut)}; random files with lines >> buffer, empty lines, 1..5 passes, resume offsets, tail mode, buffer-aligned line ends, checkInputBytes alone; several jobs per worker.work call (shared buffers), sparse files with resume offsets beyond 2^32. Non-trivial = content has a newline (exhaustive), or newline and >= 2 passes (random), non-empty prefix (tail-mode), input longer than the limit (check-input); distinct = distinct (sub-model, case) text.",
+		Rule: "exhaustive: every content over {a,b,\\n} up to the tier's length x every split into two appends (one worker pass after each) x read buffer 1..4 x (max_event_size, cut_off) in {(0,-),(2,skip),(2,cut),(3,skip),(3,cut)}; random files with lines >> buffer, empty lines, 1..5 passes, resume offsets, tail mode, buffer-aligned line ends, checkInputBytes alone; several jobs per worker.work call (shared buffers), sparse files with resume offsets beyond 2^32; histories with ticks of the real jobProvider.maintenanceJob at every position (exhaustive small scope, directed over all swept read buffer sizes, random) incl. truncation, rename and rotation. Non-trivial = content has a newline (exhaustive), or newline and >= 2 passes (random), non-empty prefix (tail-mode), input longer than the limit (check-input); distinct = distinct (sub-model, case) text.",
 		Gen:  c06Gen, Exec: c06Exec})
 	if c06Dir != "" {
 		os.RemoveAll(c06Dir) // also after -replay
